@@ -502,7 +502,7 @@ func ZZBatchedConnLoss() {
 	h := zzHandler([]*conn{c})
 	d := std.NewHandler(direct)
 
-	kinds := []int{bGet, bGetE, bSet, bTouch}
+	kinds := []int{bGet, bGetE, bSet, bTouch, bGat}
 	cmd := &zzCmd{kind: kinds[rt.Choice("cmd", len(kinds))]}
 	n := 1
 	if cmd.kind == bGet || cmd.kind == bGetE {
@@ -547,6 +547,16 @@ func ZZBatchedConnLoss() {
 			}
 		} else {
 			rt.Assert("c13-no-more-responses-than-keys", len(got.resp) <= len(want.resp))
+		}
+	} else if cmd.kind == bGat {
+		// get-and-touch (relative TTL: idempotent): an error, or the direct connection's answer
+		if !got.fatal && got.class != model.Fault {
+			rt.Assert("c13-gat-outcome-is-result-or-error", got.class == want.class && len(got.resp) == len(want.resp))
+			if got.class == want.class && len(got.resp) == len(want.resp) {
+				for j := range got.resp {
+					rt.Assert("c13-gat-response-carries-the-right-data", zzEqResp(got.resp[j], want.resp[j], false))
+				}
+			}
 		}
 	} else {
 		rt.Assert("c13-write-outcome-is-result-or-error", got.class == want.class || got.class == model.Fault || got.class == model.NotFound+10)
